@@ -12,6 +12,7 @@ from . import c16
 
 ID = "C11"
 MODULE = "LasioProofs.Props.C11"
+EXTRA_MODULES = ["LasioProofs.Props.C11File"]
 RULE = ("inputs x writer option sets x cycles: L0 = read(x); x1 = write(L0); L1 = read(x1); x2 = write(L1); L2 = read(x2); ... up to "
         "k = 4 re-reads.  Inputs: every file of tests/examples (unreadable / unwritable ones counted and skipped), generated documents "
         "(harness/lasdoc.gen_doc: section permutations, custom sections, fillers, DLM variants; c16.gen_text: right / wrong STOP, unit "
@@ -554,9 +555,16 @@ LEVEL_TEXT = ("Machine-checked Lean 4 theorems about the writer side of the cycl
               "no accumulating precision loss), C11_standardize_idem (the header normalisations are idempotent), C11_suffix_stable (session "
               "mnemonics are a function of the list of original mnemonics: a section re-read from its own written originals gets the same "
               "session names, no growing suffixes), C11_item_fixed_point (a conformant header line, written, read, written again and read "
-              "again gives the same item: no field migrates), C11_write_idempotent (re-export of C16_idempotent).  The full statement over "
-              "arbitrary accepted inputs is NOT proved: there is no whole-file reader model composed with strtod; it is covered by the "
-              "oracle (real read / write cycles on the corpus, generated documents and their mutations) and by the correspondence of "
-              "every write of every cycle with the compiled writer model.")
-LEVEL_NOTE = ("proved: fixed-point properties of each writer-side ingredient and of a single conformant header line; oracle + correspondence "
-              "only: the composed cycle over whole files (reader side, non-conformant lines, data-section re-reading).")
+              "again gives the same item: no field migrates), C11_write_idempotent (re-export of C16_idempotent).  WHOLE FILE, header "
+              "(Props/C11File.lean, on the whole-file reader model Rd.readLines and the header writer Wr.headerLines, C03_file used twice): "
+              "C11_file_fixed_point — for a conformant object the second re-read equals the first re-read in every section (items, order, "
+              "mnemonic, unit, value text, description, ~Other text), at any header widths; C11_file_iterate — so does the k-th, for every k; "
+              "C11_file_invariant — the hypotheses hold again for the re-read object; each extra hypothesis has a counter-example theorem "
+              "(duplicate WRAP, hidden value, blank last ~Other line, re-spelt number, changed mnemonic_case, numeric unit, blank mnemonic). "
+              "NOT proved: the data section and the STRT/STOP/STEP / unit refresh inside the composed cycle, numbers whose str() differs from "
+              "their spelling (repr round trip is the hypothesis SpeltConf), non-conformant lines: covered by the oracle (real read / write "
+              "cycles on the corpus, generated documents and their mutations) and by the correspondence of every write of every cycle with "
+              "the compiled writer model.")
+LEVEL_NOTE = ("proved: fixed-point properties of each writer-side ingredient, of a single conformant header line and of the whole written header "
+              "(all sections, every number of cycles); oracle + correspondence only: the data section and the refresh of STRT/STOP/STEP and "
+              "units within the composed cycle, non-conformant lines (the known findings).")
